@@ -29,7 +29,18 @@ func stateCanon(s *core.State) string {
 	if s == nil {
 		return "nil"
 	}
+	if s.Bs == nil {
+		return s.NodeName + "/{}" // absent bindings are empty bindings
+	}
 	return s.NodeName + "/" + fw.Canon(s.Bs)
+}
+
+// WalkCase is exported for the monitors that reuse the history checker.
+type WalkCase = walkCase
+
+// CheckWalk judges one Walk under the given signature prefix and context.
+func CheckWalk(ctx context.Context, rec *fw.Rec, prefix string, wc *WalkCase, spec *core.Spec, markers map[string]bool) (bool, *core.Walked) {
+	return checkWalkP(ctx, rec, prefix, wc, spec, markers)
 }
 
 type walkCase struct {
@@ -39,9 +50,15 @@ type walkCase struct {
 	Messages   []interface{} `json:"messages"`
 	Limit      int           `json:"limit"`
 	Breakpoint string        `json:"breakpoint,omitempty"` // "" | node:<name> | has:<binding>
+	NilControl bool          `json:"nilControl,omitempty"`
+	NativeMode ref.NativeMode `json:"nativeMode,omitempty"`
+	Props      bool          `json:"props,omitempty"`
 }
 
 func (wc *walkCase) control() *core.Control {
+	if wc.NilControl {
+		return nil
+	}
 	c := &core.Control{Limit: wc.Limit}
 	if wc.Breakpoint != "" {
 		c.Breakpoints = map[string]core.Breakpoint{"bp": bpFunc(wc.Breakpoint)}
@@ -68,16 +85,23 @@ func msgsCanon(ms []interface{}) string { return fw.Canon(ms) }
 
 // checkWalk judges one Walk.  It returns false if a violation was recorded.
 func checkWalk(rec *fw.Rec, wc *walkCase, spec *core.Spec, markers map[string]bool) (ok bool, walked *core.Walked) {
-	ctx := context.Background()
+	return checkWalkP(context.Background(), rec, "C05", wc, spec, markers)
+}
+
+func checkWalkP(ctx context.Context, rec *fw.Rec, prefix string, wc *walkCase, spec *core.Spec, markers map[string]bool) (ok bool, walked *core.Walked) {
 	given := coreState(wc.State)
+	var props core.StepProps
+	if wc.Props {
+		props = core.StepProps{"p": 1.0}
+	}
 	msgs := fw.Deep(wc.Messages).([]interface{})
 	var err error
-	if rec.Guard("C05", wc, func() { walked, err = spec.Walk(ctx, given, msgs, wc.control(), nil) }) {
+	if rec.Guard(prefix, wc, func() { walked, err = spec.Walk(ctx, given, msgs, wc.control(), props) }) {
 		return false, nil
 	}
 	rec.Eval(1)
 	bad := func(cls, why string) (bool, *core.Walked) {
-		rec.Violation("C05:"+cls, why, map[string]interface{}{"case": wc, "walked": summarize(walked)})
+		rec.Violation(prefix+":"+cls, why, map[string]interface{}{"case": wc, "walked": summarize(walked)})
 		return false, walked
 	}
 	if err != nil {
@@ -88,6 +112,9 @@ func checkWalk(rec *fw.Rec, wc *walkCase, spec *core.Spec, markers map[string]bo
 	}
 	// (3) step bound
 	limit := wc.Limit
+	if wc.NilControl {
+		limit = core.DefaultControl.Limit
+	}
 	if limit < 0 {
 		limit = 0
 	}
@@ -97,7 +124,7 @@ func checkWalk(rec *fw.Rec, wc *walkCase, spec *core.Spec, markers map[string]bo
 	// (1) chain, (2) consumption, (5) reference step per stride
 	cur := coreState(wc.State)
 	consumed := 0
-	env := ref.Env{Native: wc.Native}
+	env := ref.Env{Native: wc.Native, NativeMode: wc.NativeMode}
 	for i, s := range walked.Strides {
 		if s == nil || s.From == nil {
 			return bad("nil-stride", fmt.Sprintf("stride %d is nil or has no From", i))
@@ -161,7 +188,7 @@ func checkWalk(rec *fw.Rec, wc *walkCase, spec *core.Spec, markers map[string]bo
 		// quiescence probe: no further step possible without a new message
 		var st *core.Stride
 		var perr error
-		if rec.Guard("C05:probe", wc, func() { st, perr = spec.Step(ctx, fw.DeepState(cur), nil, nil, nil) }) {
+		if rec.Guard(prefix+":probe", wc, func() { st, perr = spec.Step(ctx, fw.DeepState(cur), nil, nil, nil) }) {
 			return false, walked
 		}
 		if perr == nil && st != nil && st.To != nil {
@@ -172,7 +199,7 @@ func checkWalk(rec *fw.Rec, wc *walkCase, spec *core.Spec, markers map[string]bo
 		}
 		if len(rest) > 0 {
 			// messages were dropped: the machine must not be at a node able to consume them
-			if rec.Guard("C05:probe", wc, func() { st, perr = spec.Step(ctx, fw.DeepState(cur), fw.Deep(rest[0]), nil, nil) }) {
+			if rec.Guard(prefix+":probe", wc, func() { st, perr = spec.Step(ctx, fw.DeepState(cur), fw.Deep(rest[0]), nil, nil) }) {
 				return false, walked
 			}
 			if st != nil && st.Consumed != nil {
